@@ -1,4 +1,10 @@
 import Gv.Proofs.FastaOutcome
+import Gv.Model.Fmt.Phylip
+import Gv.Model.Fmt.Stockholm
+import Gv.Model.Fmt.Clustal
+import Gv.Model.Fmt.Nexus
+import Gv.Model.Fmt.Partition
+import Gv.Proofs.PartitionRange
 /-!
 C03 — parsers terminate on every input with an error or a well-formed result.
 
@@ -104,5 +110,80 @@ example : Fasta.parse true {} [62, 97, 10, 65, 67, 10] = .ok ⟨1, 2, [([97], [6
     Fasta.isEOL, Fasta.identChar, Fasta.afterRun, Fasta.GT, NL, CR, Fasta.stripSpaces, Fasta.noSpaces, SP,
     Bag.add, Bag.find]
   decide
+
+/-! ## The other parsers: the full outcome statement is FALSE for the code as it is
+
+Each witness below is the minimal input of a finding recorded in `known_findings.jsonl`; the model
+(with all repair facts `false` = the unchanged code) is evaluated by the kernel.  The second theorem
+of each pair evaluates the model with the facts of the proposed patch: an explicit error. -/
+
+set_option maxRecDepth 100000
+
+/-- `# STOCKHOLM 1.0\n#` — markup on the last line: the markup loop never sees ENDOFLINE -/
+theorem stockholm_counterexample_hang :
+    Stockholm.parse false false {} [35, 32, 83, 84, 79, 67, 75, 72, 79, 76, 77, 32, 49, 46, 48, 10, 35] = .hang := by decide
+/-- `# STOCKHOLM 1.0\n//` — success with zero rows (length −1 passes the `Length() == 0` test) -/
+theorem stockholm_counterexample_empty :
+    Stockholm.parse false false {} [35, 32, 83, 84, 79, 67, 75, 72, 79, 76, 77, 32, 49, 46, 48, 10, 47, 47] = .ok ⟨1, -1, []⟩ := by decide
+theorem stockholm_patched_witnesses :
+    Stockholm.parse true true {} [35, 32, 83, 84, 79, 67, 75, 72, 79, 76, 77, 32, 49, 46, 48, 10, 35] = .error ∧
+    Stockholm.parse true true {} [35, 32, 83, 84, 79, 67, 75, 72, 79, 76, 77, 32, 49, 46, 48, 10, 47, 47] = .error := by decide
+
+/-- `#NEXUS\n[` — unterminated comment: `consumeComment` spins at EOF -/
+theorem nexus_counterexample_hang :
+    Nexus.parse ⟨false, false, false⟩ {} [35, 78, 69, 88, 85, 83, 10, 91] = .hang := by decide
+/-- a matrix row without residues: success with zero columns -/
+theorem nexus_counterexample_zero_columns :
+    Nexus.parse ⟨false, false, false⟩ {} [35, 78, 69, 88, 85, 83, 10, 98, 101, 103, 105, 110, 32, 100, 97, 116, 97, 59, 10, 109, 97, 116, 114, 105, 120, 10, 97, 32, 10, 59, 10, 101, 110, 100, 59, 10] = .ok ⟨1, 0, [([97], [])]⟩ := by decide
+/-- `ntax=-1 nchar=-1` is accepted with one row of one column -/
+theorem nexus_counterexample_minus_one :
+    Nexus.parse ⟨false, false, false⟩ {} [35, 78, 69, 88, 85, 83, 10, 98, 101, 103, 105, 110, 32, 100, 97, 116, 97, 59, 10, 100, 105, 109, 101, 110, 115, 105, 111, 110, 115, 32, 110, 116, 97, 120, 61, 45, 49, 32, 110, 99, 104, 97, 114, 61, 45, 49, 59, 10, 109, 97, 116, 114, 105, 120, 10, 97, 32, 65, 10, 59, 10, 101, 110, 100, 59, 10] = .ok ⟨1, 1, [([97], [65])]⟩ := by decide
+theorem nexus_patched_witnesses :
+    Nexus.parse ⟨true, true, true⟩ {} [35, 78, 69, 88, 85, 83, 10, 91] = .error ∧
+    Nexus.parse ⟨true, true, true⟩ {} [35, 78, 69, 88, 85, 83, 10, 98, 101, 103, 105, 110, 32, 100, 97, 116, 97, 59, 10, 109, 97, 116, 114, 105, 120, 10, 97, 32, 10, 59, 10, 101, 110, 100, 59, 10] = .error ∧
+    Nexus.parse ⟨true, true, true⟩ {} [35, 78, 69, 88, 85, 83, 10, 98, 101, 103, 105, 110, 32, 100, 97, 116, 97, 59, 10, 100, 105, 109, 101, 110, 115, 105, 111, 110, 115, 32, 110, 116, 97, 120, 61, 45, 49, 32, 110, 99, 104, 97, 114, 61, 45, 49, 59, 10, 109, 97, 116, 114, 105, 120, 10, 97, 32, 65, 10, 59, 10, 101, 110, 100, 59, 10] = .error := by decide
+
+/-- a second block with more rows than the first: `names[currentnbseqs]` out of range -/
+theorem clustal_counterexample_panic :
+    Clustal.parse false {} [67, 76, 85, 83, 84, 65, 76, 32, 87, 10, 10, 97, 32, 65, 67, 10, 32, 32, 42, 42, 10, 10, 97, 32, 65, 67, 10, 98, 32, 65, 67, 10] = .panic := by decide
+theorem clustal_patched_witness :
+    Clustal.parse true {} [67, 76, 85, 83, 84, 65, 76, 32, 87, 10, 10, 97, 32, 65, 67, 10, 32, 32, 42, 42, 10, 10, 97, 32, 65, 67, 10, 98, 32, 65, 67, 10] = .error := by decide
+
+/-- `  99999999999999 10\n` — `make([]string, nbseq)`: makeslice panics -/
+theorem phylip_counterexample_alloc_panic :
+    Phylip.parse true {} [32, 32, 57, 57, 57, 57, 57, 57, 57, 57, 57, 57, 57, 57, 57, 57, 32, 49, 48, 10] = .panic := by decide
+theorem phylip_patched_witness :
+    Phylip.parse false {} [32, 32, 57, 57, 57, 57, 57, 57, 57, 57, 57, 57, 57, 57, 57, 57, 32, 49, 48, 10] = .error := by decide
+
+/-- `M,p=2-10/9223372036854775807` over 10 sites — `i += modulo` wraps to a negative index -/
+theorem partition_counterexample_overflow_panic :
+    Partition.parse ⟨false, false⟩ 10 [77, 44, 112, 61, 50, 45, 49, 48, 47, 57, 50, 50, 51, 51, 55, 50, 48, 51, 54, 56, 53, 52, 55, 55, 53, 56, 48, 55] = .panic := by decide
+theorem partition_patched_witness :
+    Partition.parse ⟨true, true⟩ 10 [77, 44, 112, 61, 50, 45, 49, 48, 47, 57, 50, 50, 51, 51, 55, 50, 48, 51, 54, 56, 53, 52, 55, 55, 53, 56, 48, 55] =
+      .ok ⟨10, [([112], [77])], [-1, 0, -1, -1, -1, -1, -1, -1, -1, -1]⟩ := by decide
+
+/-! ## `AddRange` (partition parser back end) -/
+
+open Gv.Proofs.PartitionRange in
+/-- **`AddRange` with the overflow guard** (`if modulo > end-i { break }`, present in the working tree when
+the regenerated fact `Gen.FmtFacts.partition_guards_step_overflow` is `true`; `r` = whether `start > end` is
+rejected as well), for ALL `start`, `end`, `modulo` (64-bit wrap-around modelled explicitly by
+`Partition.wrap64`): the result is an explicit error or a partition set whose map still covers exactly the
+declared length with entries that are −1 or the index of a declared partition — never a panic (index out of
+range), never a hang.  Without the guard the statement is false: `partition_counterexample_overflow_panic`. -/
+theorem addRange_in_bounds (r : Bool) (ps : Partition.PSet) (h : PInv ps) (part model : Name)
+    (start endI modulo : Int) :
+    Partition.addRange r true ps part model start endI modulo = .error ∨
+    ∃ ps', Partition.addRange r true ps part model start endI modulo = .ok ps' ∧ PInv ps' ∧
+      ps'.length = ps.length :=
+  addRange_guarded r ps h part model start endI modulo
+
+/-- non-vacuity: the fresh partition set of any length below 2^63 satisfies the invariant -/
+theorem newPSet_inv (len : Nat) (h : (len : Int) < 9223372036854775808) :
+    Gv.Proofs.PartitionRange.PInv (Partition.newPSet len) := by
+  refine ⟨by simp [Partition.newPSet], h, ?_⟩
+  intro p hp
+  simp [Partition.newPSet] at hp
+  omega
 
 end Gv.Props.C03
